@@ -77,9 +77,18 @@ def compute_offsets(cursor, reference_zeta_mm):
         series, delta_z_mm
     )
 
+    # Compare the quotient with the nearest integer: the remainder of a
+    # floating-point division by a step such as 0.1 can be close to
+    # the step instead of 0, and truncating the quotient can give the
+    # grid level below the reference.
     reference_zeta_off_grid = (
         reference_zeta_mm is not None
-        and not np.allclose(reference_zeta_mm % delta_z_mm, 0)
+        and not np.isclose(
+            reference_zeta_mm / delta_z_mm,
+            np.round(reference_zeta_mm / delta_z_mm),
+            rtol=0,
+            atol=1e-6,
+        )
     )
     if reference_zeta_off_grid:
         raise ValueError(
@@ -87,7 +96,7 @@ def compute_offsets(cursor, reference_zeta_mm):
             'zeta step {} mm'.format(reference_zeta_mm, delta_z_mm)
         )
     if reference_zeta_mm is not None:
-        reference_index = int(reference_zeta_mm / delta_z_mm)
+        reference_index = int(np.round(reference_zeta_mm / delta_z_mm))
     else:
         reference_index = max(head_mapping.keys())
 
